@@ -216,6 +216,97 @@ func c13Run(c *c13Case) (exp, act string, ok bool) {
 	return exp, "as expected", true
 }
 
+// ---- cancellation BETWEEN two answers: no call is pending, the search is parked at the hand-over --------
+
+type c13BetweenCase struct {
+	Between  bool   `json:"between_answers"`
+	Query    string `json:"query"`
+	After    int    `json:"after_answers"`
+	Deadline bool   `json:"deadline"`
+}
+
+var c13Generators = []string{
+	"(X = 1 ; X = 2 ; X = 3).", "member(X, [1, 2, 3, 4]).", "between(1, 9223372036854775807, X).", "repeat, X = 1.", "length(X, _).", "c(X).",
+	"catch(member(X, [1, 2, 3]), _, true).", "findall(Y, member(Y, [1, 2]), L), member(X, L).", "\\+ fail, member(X, [1, 2, 3]).", "nat(X).",
+}
+
+func c13BetweenRun(c *c13BetweenCase) (exp, act string, ok bool) {
+	p := prolog.New(strings.NewReader(""), &bytes.Buffer{})
+	if err := p.Exec(c13Program + "\nnat(0).\nnat(N) :- nat(M), N is M + 1.\n"); err != nil {
+		return "program loads", err.Error(), false
+	}
+	var ctx context.Context
+	var cancel context.CancelFunc
+	if c.Deadline {
+		ctx, cancel = context.WithTimeout(context.Background(), 30*time.Millisecond)
+	} else {
+		ctx, cancel = context.WithCancel(context.Background())
+	}
+	defer cancel()
+	sols, err := p.QueryContext(ctx, c.Query)
+	if err != nil {
+		return "QueryContext succeeds", err.Error(), false
+	}
+	defer sols.Close()
+	for i := 0; i < c.After; i++ {
+		if !sols.Next() {
+			if sols.Err() == nil {
+				return "", "the generator has fewer answers", true
+			}
+			return fmt.Sprintf("answer %d is delivered", i+1), fmt.Sprintf("Next returned false, Err() = %v", sols.Err()), false
+		}
+	}
+	wantErr := context.Canceled
+	if c.Deadline {
+		<-ctx.Done() // the deadline passes while the caller holds the answer
+		wantErr = context.DeadlineExceeded
+	} else {
+		cancel()
+	}
+	exp = fmt.Sprintf("after the context is done, the next Next() returns false and Err() is %v (a cut-off enumeration is not the end of the solutions)", wantErr)
+	if sols.Next() {
+		return exp, "Next() returned true", false
+	}
+	if e := sols.Err(); !errors.Is(e, wantErr) {
+		return exp, fmt.Sprintf("Next() = false, Err() = %v", e), false
+	}
+	for _, q := range c13FollowUps[:3] {
+		if got, want := c13Answers(p, q), c13Fresh[q]; c13Fresh != nil && got != want {
+			return exp + "; " + q + " answers " + want, "afterwards " + q + " answers " + got, false
+		}
+	}
+	return exp, "as expected", true
+}
+
+func c13BetweenWork(w *h.W) {
+	for _, q := range c13Generators {
+		for after := 0; after <= 3; after++ {
+			for _, dl := range []bool{false, true} {
+				if !w.Mine() {
+					continue
+				}
+				c := &c13BetweenCase{Between: true, Query: q, After: after, Deadline: dl}
+				w.GuardFor(c, 25*time.Second)
+				exp, act, ok := c13BetweenRun(c)
+				w.Unguard()
+				w.Eval(1)
+				w.States(1)
+				w.Transitions(after + 1)
+				w.Traces(1)
+				w.Nontrivial(fmt.Sprint("between:", q, after, dl))
+				w.Outcome("between-answers")
+				if !ok {
+					what := digitsRe.ReplaceAllString(act, "N")
+					if len(what) > 60 {
+						what = what[:60]
+					}
+					w.Violation("cancel between answers: "+what, c, exp, act, after)
+				}
+			}
+		}
+	}
+}
+
 func c13Answers(p *prolog.Interpreter, q string) string {
 	ctx, cancel := context.WithTimeout(context.Background(), 5*time.Second)
 	defer cancel()
@@ -243,6 +334,7 @@ func c13Answers(p *prolog.Interpreter, q string) string {
 var varNumRe2 = digitsAfterUnderscore()
 
 func c13Work(w *h.W) {
+	c13BetweenWork(w)
 	maxK := w.Pick(12, 60)
 	var wraps [][]int
 	for i := range c13Wrappers {
@@ -336,6 +428,10 @@ func c13Work(w *h.W) {
 }
 
 func c13Replay(b []byte) (string, string, bool) {
+	var bc c13BetweenCase
+	if json.Unmarshal(b, &bc) == nil && bc.Between {
+		return c13BetweenRun(&bc)
+	}
 	var c c13Case
 	if err := json.Unmarshal(b, &c); err != nil {
 		return "", err.Error(), false
@@ -346,7 +442,7 @@ func c13Replay(b []byte) (string, string, bool) {
 func init() {
 	h.Register(&h.Check{
 		ID: "C13",
-		Rule: "all (loop, wrapper, position, cancellation instant) combinations: 13 loops (repeat-driven with a Prolog and with a Go built-in failing, direct / mutual / non-tail recursion, between/3, length/2, retract/assertz ping-pong, and 5 loops that write nothing) x wrappers {none, findall, bagof, setof, \\+, \\+\\+, catch with true / with the loop again as recovery, call, once, ;, ->} nested to depth 1 (quick: plus 7 depth-2 nestings; thorough: all depth-2 nestings) x positions {query, second answer of a query, directive of an Exec text, initialization/1 goal, body of a user term_expansion/2 during Exec, file consulted through Interpreter.FS by consult/1 and by an ensure_loaded/1 directive - after which the same file must be loadable} x cancellation instant k = 0 (already cancelled) .. K where the real cancel() is called by the output writer when the k-th byte arrives (every loop writes a byte before each goal, so k enumerates every phase of every iteration) plus the deep instants k = 300, 3000, 12000 (thorough: 1000, 5000, 40000 too) at which the machine's stacks hold thousands of entries; silent loops are cancelled from a timer at several delays. Distinct = (goal, position, k).",
+		Rule: "all (loop, wrapper, position, cancellation instant) combinations: 13 loops (repeat-driven with a Prolog and with a Go built-in failing, direct / mutual / non-tail recursion, between/3, length/2, retract/assertz ping-pong, and 5 loops that write nothing) x wrappers {none, findall, bagof, setof, \\+, \\+\\+, catch with true / with the loop again as recovery, call, once, ;, ->} nested to depth 1 (quick: plus 7 depth-2 nestings; thorough: all depth-2 nestings) x positions {query, second answer of a query, directive of an Exec text, initialization/1 goal, body of a user term_expansion/2 during Exec, file consulted through Interpreter.FS by consult/1 and by an ensure_loaded/1 directive - after which the same file must be loadable} x cancellation instant k = 0 (already cancelled) .. K where the real cancel() is called by the output writer when the k-th byte arrives (every loop writes a byte before each goal, so k enumerates every phase of every iteration) plus the deep instants k = 300, 3000, 12000 (thorough: 1000, 5000, 40000 too) at which the machine's stacks hold thousands of entries; silent loops are cancelled from a timer at several delays; cancellation BETWEEN two answers: 10 generators x after 0..3 delivered answers x {cancel, deadline}: the next Next returns false and Err is the context's error. Distinct = (goal, position, k).",
 		Explanation: "state = a fresh real interpreter with the loop program; transition = the pending QueryContext/Next or ExecContext call, which must return the context's error; at most 64 bytes may reach the writer after cancel() returned (a step bound, not a clock); immediately afterwards eight follow-up queries (failing, single-answer, enumerated to exhaustion, erroneous) must answer as on a fresh interpreter; a call that has not returned after the 60 s horizon is reported by the worker's watchdog ('does not return')",
 		Assumptions: []string{"the implementation can observe a cancellation only at a poll, so instants fall into classes 'first poll that sees it'; the byte-triggered seam lands in every class of the loops that write", "the 60 s horizon is not a latency oracle (expected: microseconds)"},
 		Work:        c13Work,
